@@ -395,3 +395,8 @@ def describe(plan):
             "script": [{k: (v if k not in ("stream", "chunks", "gaps") else len(v)) for k, v in e.items()} for e in plan["script"]][:12],
             "ops": [{k: (v if k != "msg" else "<message json>") for k, v in op.items()} for op in plan.get("ops", [])][:8],
             "status_callback": plan.get("cb", {}).get("status")}
+
+
+def seam_check():
+    from .common import seam_net, seam_clock, seam_fs
+    return seam_net()
